@@ -259,6 +259,9 @@ def pag_recipe(draw, *, fonts=False, strategies=("plain", "page_by", "page_by_ne
             subline = [[v.replace("@G", "@B") for v in two[0]], [v.replace("@G", "@B") for v in two[1]]]
         else:
             subline = runs_to_values(draw(runs_for(n, capacity)), "@B", 0) if n else []
+    if tall_headings and subline and isinstance(subline[0], str) and draw(st.integers(0, 9)) < 5:
+        # subline_by values long enough to wrap in the heading paragraph (text area 6.25 in on the default page)
+        subline = draw(lengthen_groups([subline]))[0]
     new_page = strat == "page_by_new"
     pbr = draw(st.sampled_from(pageby_rows)) if new_page else None
     pl = tuple(draw(st.sampled_from(["first", "last", "all"])) for _ in range(3)) if (placements and draw(st.booleans())) else None
